@@ -27,9 +27,9 @@ ASSUMPTIONS = ["floating sums depend on child order: bit-equality only when eage
 
 def plan(tier):
     q = tier == "quick"
-    return [dict(unit="struct", n=300 if q else 8000, builds=["py", "so"], case_timeout=60),
-            dict(unit="universe", n=120 if q else 3000, builds=["py", "so"], case_timeout=180),
-            dict(unit="lazy_eager", n=150 if q else 4000, builds=["py", "so"], case_timeout=240)]
+    return [dict(unit="struct", n=300 if q else 3200, builds=["py", "so"], case_timeout=60),
+            dict(unit="universe", n=120 if q else 1200, builds=["py", "so"], case_timeout=180),
+            dict(unit="lazy_eager", n=150 if q else 1600, builds=["py", "so"], case_timeout=240)]
 
 
 def floors(tier):
